@@ -37,6 +37,8 @@ ObsInit(cfg) ==
    hookSilent |-> FALSE, hookRestored |-> FALSE,
    begun |-> {}, batched |-> {},
    tripped |-> FALSE, trippedH |-> FALSE, mayStart |-> {}, lateStarts |-> 0,
+   logs |-> {},                  \* tracing logs emitted by user code, not yet delivered (C20)
+   ndelivered |-> 0,
    ffail |-> FALSE, skipfail |-> FALSE, retriedHookF |-> FALSE, retriedHookSkip |-> FALSE,
    lastFin |-> [s |-> "", failed |-> FALSE, retry |-> FALSE],
    stats |-> [serialIsolated |-> 0, delayed |-> 0, retried |-> 0, panics |-> 0,
@@ -139,7 +141,8 @@ ObsFeatF(o, rec) ==
          EXCEPT !.fs[rec.f] = "closed"]
 
 ObsRunFinished(o, rec) ==
-  [Chk(o, rec, {<<o.ph = "started", "C03", "run-Finished-not-once-or-unstarted">>,
+  [Chk(o, rec, {<<o.logs = {}, "C20", "log-lost-before-run-Finished">>,
+                <<o.ph = "started", "C03", "run-Finished-not-once-or-unstarted">>,
                 <<\A f \in DOMAIN o.fs : o.fs[f] # "open", "C03", "run-Finished-with-open-feature">>,
                 <<\A r \in DOMAIN o.rs : o.rs[r] # "open", "C03", "run-Finished-with-open-rule">>,
                 <<Inflight(o) = {}, "C08", "run-Finished-with-attempt-in-flight">>})
@@ -231,7 +234,9 @@ ObsSc(o, rec) ==
     IF a.pc = "S" /\ o.cfg.before THEN [o0 EXCEPT !.at[s].pc = "Hb"]
     ELSE bad("unexpected-before-hook-Started")
   ELSE IF k = "HookP" /\ rec.h = "b" THEN
-    [Chk(o0, rec, {<<a.pc = "Hb", "C02", "unexpected-before-hook-Passed">>,
+    [Chk(o0, rec, {<<\A p \in o.logs : ~(p.s = s /\ p.att = a.cur /\ p.point = "before"),
+                     "C20", "hook-result-emitted-before-its-logs-were-delivered">>,
+                   <<a.pc = "Hb", "C02", "unexpected-before-hook-Passed">>,
                    <<a.res.k = "pass", "C02", "before-hook-Passed-but-hook-did-not-pass">>,
                    <<a.world # 0, "C09", "before-hook-passed-without-a-World">>})
        EXCEPT !.at[s].pc = stepsPc, !.at[s].res = NoRes]
@@ -255,7 +260,9 @@ ObsSc(o, rec) ==
     LET st == StepAt(o, s, a.i)
         exp == ExpectedStepResult(o, s, a)
         o1 == Chk(o0, rec,
-               {<<rec.step = st.text /\ rec.bg = st.bg, "C02", "step-result-for-another-step">>,
+               {<<\A p \in o.logs : ~(p.s = s /\ p.att = a.cur /\ p.point = "step" /\ p.i = a.i),
+                  "C20", "step-result-emitted-before-its-logs-were-delivered">>,
+                <<rec.step = st.text /\ rec.bg = st.bg, "C02", "step-result-for-another-step">>,
                 <<k = exp, "C02", "step-result-contradicts-what-happened">>,
                 <<k # "StepF" \/ st.kind # "ambig" \/ rec.err = "ambig", "C02", "ambiguous-step-not-reported-as-ambiguous">>,
                 <<k # "StepF" \/ st.kind # "ambig" \/ Len(rec.cands) = 2, "C17", "ambiguity-candidates">>,
@@ -277,7 +284,9 @@ ObsSc(o, rec) ==
             EXCEPT !.at[s].pc = "Ha"]
     ELSE bad("unexpected-after-hook-Started")
   ELSE IF k \in {"HookP", "HookF"} /\ rec.h = "a" THEN
-    [Chk(o0, rec, {<<a.pc = "Ha", "C02", "unexpected-after-hook-result">>,
+    [Chk(o0, rec, {<<\A p \in o.logs : ~(p.s = s /\ p.att = a.cur /\ p.point = "after"),
+                     "C20", "hook-result-emitted-before-its-logs-were-delivered">>,
+                   <<a.pc = "Ha", "C02", "unexpected-after-hook-result">>,
                    <<(k = "HookP") = (a.ares.k = "pass"), "C02", "after-hook-result-contradicts-what-happened">>,
                    <<k = "HookP" \/ a.ares.k # "panic" \/ (rec.pty = a.ares.pty /\ rec.pmsg = a.ares.msg),
                      "C10", "failure-payload-not-the-one-thrown">>,
@@ -303,7 +312,21 @@ ObsSc(o, rec) ==
                   !.tripped = @ \/ trip,
                   !.mayStart = IF trip THEN o.batched \ o.begun ELSE @,
                   !.lastFin = [s |-> s, failed |-> failed, retry |-> retry]]
-  ELSE IF k = "Log" THEN o0
+  ELSE IF k = "Log" THEN
+    LET cands == {p \in o.logs : p.msg = rec.lmsg} IN
+    IF cands = {}
+    THEN Chk(o0, rec, {<<rec.lmsg = "", "C20", "log-delivered-twice-or-never-emitted">>})
+    ELSE LET p == CHOOSE x \in cands : TRUE
+             inPlace == CASE p.point = "step" -> a.pc = "Sr" /\ a.i = p.i
+                          [] p.point = "before" -> a.pc = "Hb"
+                          [] p.point = "after" -> a.pc = "Ha"
+                          [] OTHER -> TRUE
+         IN [Chk(o0, rec,
+               {<<p.s = s /\ p.att = rec.cur, "C20", "log-attributed-to-another-scenario-or-attempt">>,
+                <<p.point = "after" \/ inPlace, "C20", "log-not-between-Started-and-result-of-its-step-or-hook">>,
+                \* known shape F7: the after hook runs before its Started event is emitted
+                <<p.point # "after" \/ inPlace, "C20", "after-hook-log-before-the-after-hook-Started-event">>})
+              EXCEPT !.logs = @ \ {p}, !.ndelivered = @ + 1]
   ELSE bad("unknown-scenario-event")
 
 ---------------------------------------------------------------------------
@@ -332,7 +355,11 @@ ObsCb(o, rec) ==
       enter == rec.cb = "enter"
       pt == rec.point
   IN
-  IF a.ph # "run" \/ a.cur # rec.att THEN common
+  IF rec.cb = "log" THEN
+    \* a tracing log event emitted by user code inside (s, att), in callback `pt`
+    [Chk(o, rec, {<<a.ph = "run" /\ a.cur = rec.att, "C20", "log-emitted-outside-an-attempt">>})
+       EXCEPT !.logs = @ \cup {[msg |-> rec.msg, s |-> s, att |-> rec.att, point |-> pt, i |-> a.i]}]
+  ELSE IF a.ph # "run" \/ a.cur # rec.att THEN common
   ELSE IF pt = "world" THEN
     IF enter THEN
       LET needed == \/ (a.pc = "Hb" /\ o.cfg.before)
